@@ -229,8 +229,18 @@ def play_session(rng, n_msgs, wrap):
         reactions = {}
         drop_at = rng.choice([None, None, None, 2.0, 6.0])
         delay = rng.choice([0.0, 0.0, 0.7])
-        if delay:
-            hook.sending_gate = lambda m, p: asyncio.sleep(delay) if struct.unpack('>I', bytes(p)[4:8])[0] == 4 else None
+        fail_write_at = rng.choice([None, None, 1, 2, 4])      # the transport fails while this submit_sm is being written
+        count = [0]
+
+        def gate(m, p):
+            if struct.unpack('>I', bytes(p)[4:8])[0] != 4:
+                return None
+            count[0] += 1
+            if fail_write_at is not None and count[0] == fail_write_at and smsc.conns:
+                smsc.conns[-1].transport.fail_writes = ConnectionResetError('reset by peer while writing')
+                smsc.conns[-1].reset(delay=0.001)
+            return asyncio.sleep(delay) if delay else None
+        hook.sending_gate = gate
 
         def on_pdu(conn, pdu):
             for p in vsess.split_pdus(pdu)[0]:
@@ -285,7 +295,7 @@ def play_session(rng, n_msgs, wrap):
         loop.run_until_complete(main())
         obs['msgs'] = [(k, m.log_id) for k, m in msgs]
         obs['reactions'] = reactions
-        obs['drop_at'] = drop_at
+        obs['drop_at'] = drop_at if fail_write_at is None else (drop_at, 'write failure at submit_sm #%d' % fail_write_at)
     finally:
         undo()
         vsess.finish(loop)
@@ -314,7 +324,7 @@ def oracle_session(obs):
         if oc[0][2] != 'X' + lid[1:]:
             return f'outcome of {lid} carries extra_data {oc[0][2]!r}'
         reacts = [obs['reactions'].get(s) for s in sent.get(lid, [])]
-        if obs['drop_at'] is None and reacts and all(r is not None for r in reacts):
+        if obs['drop_at'] is None and reacts and all(r is not None for r in reacts) and len(reacts) == len(set(sent.get(lid, []))):
             bad = any(r != 'ok' for r in reacts)
             is_failure = oc[0][0] == 'error' or oc[0][1] != 0
             if bad != is_failure:
